@@ -5,8 +5,8 @@
    only: slot s of row i of the buffer holds cell (i, s + shift(i-1)) of the specification matrix. *)
 From Coq Require Import ZArith Bool Lia List.
 From DV Require Import Prelude Cost Grid Dtw DtwSpec DtwProps Engines CWps CFill CExpand CFillSim CLang CDistTie CDistSpec
-  CTraceSpec CWpsCanon CWpsCanonEu CWpsKernel CWpsValue CWpsSpec CWpsSpecEu.
-From DVGen Require Import Gen_cwps Gen_cfill Gen_cwpsk.
+  CTraceSpec CWpsCanon CWpsCanonEu CWpsKernel CWpsValue CWpsSpec CWpsSpecEu CExpW.
+From DVGen Require Import Gen_cwps Gen_cfill Gen_cwpsk Gen_cexpw.
 Import ListNotations.
 Open Scope Z_scope.
 
@@ -137,6 +137,45 @@ Proof.
     unfold rowf in HH. fold W in HH. rewrite HH.
     pose proof (shift_nonneg l1 l2 window ltac:(lia) ltac:(lia) Hwin (Z.of_nat i - 1)) as Hsh.
     rewrite wps_matrix_Mfun; [reflexivity| unfold sr; lia | unfold sc; lia].
+Qed.
+(* the kernel, then dtw_expand_wps_slice (Gen_cexpw.v) on the array it leaves: the block of the full matrix *)
+Theorem c_fill_then_expand ce0 shiftf ced1 ced2 wps0 psi_neg idist zp1e zp2e (rb re cb ce : Z) full0 :
+  let W := cw_width l1 l2 window in
+  Z.of_nat (length wps0) = (l1 + 1) * W -> (idist =? 1) = false ->
+  0 <= rb < re -> re <= l1 + 1 -> 0 <= cb < ce -> ce <= l2 + 1 -> Z.of_nat (length full0) = (re - rb) * (ce - cb) ->
+  exists wps' full',
+    c_dtw_warping_paths_ndim ce0 shiftf ced1 ced2 wps0 (concat s1) l1 (concat s2) l2 false true psi_neg (Z.of_nat d)
+      ((l1 + 1) * W) (c_parts_ldiff l1 l2) (c_parts_ldiffr l1 l2 (c_parts_ldiff l1 l2))
+      (c_parts_ldiffc l1 l2 (c_parts_ldiff l1 l2)) (c_parts_window l1 l2 window) W ((l1 + 1) * W)
+      (c_parts_ri1 l1 (c_parts_overlap_left l1 (c_parts_ldiffr l1 l2 (c_parts_ldiff l1 l2)) (c_parts_window l1 l2 window))
+                      (c_parts_overlap_right l1 (c_parts_ldiffr l1 l2 (c_parts_ldiff l1 l2)) (c_parts_window l1 l2 window)))
+      (c_parts_ri2 l1 (c_parts_overlap_left l1 (c_parts_ldiffr l1 l2 (c_parts_ldiff l1 l2)) (c_parts_window l1 l2 window)))
+      (c_parts_ri3 l1 (c_parts_overlap_left l1 (c_parts_ldiffr l1 l2 (c_parts_ldiff l1 l2)) (c_parts_window l1 l2 window))
+                      (c_parts_overlap_right l1 (c_parts_ldiffr l1 l2 (c_parts_ldiff l1 l2)) (c_parts_window l1 l2 window)))
+      (adj_max_step usq) Inf (Fin (adj_penalty usq)) idist false (Z.of_nat (psi_1b usq)) zp1e (Z.of_nat (psi_2b usq)) zp2e false
+    = (RPlain (Fin (-1)), wps', true) /\
+    c_dtw_expand_wps_slice wps' full0 l1 l2 rb re cb ce ((re - rb) * (ce - cb)) ((l1 + 1) * W)
+      (c_parts_ldiff l1 l2) (c_parts_ldiffc l1 l2 (c_parts_ldiff l1 l2)) (c_parts_window l1 l2 window) W
+      (c_parts_ri1 l1 (c_parts_overlap_left l1 (c_parts_ldiffr l1 l2 (c_parts_ldiff l1 l2)) (c_parts_window l1 l2 window))
+                      (c_parts_overlap_right l1 (c_parts_ldiffr l1 l2 (c_parts_ldiff l1 l2)) (c_parts_window l1 l2 window)))
+      (c_parts_ri2 l1 (c_parts_overlap_left l1 (c_parts_ldiffr l1 l2 (c_parts_ldiff l1 l2)) (c_parts_window l1 l2 window)))
+      (c_parts_ri3 l1 (c_parts_overlap_left l1 (c_parts_ldiffr l1 l2 (c_parts_ldiff l1 l2)) (c_parts_window l1 l2 window))
+                      (c_parts_overlap_right l1 (c_parts_ldiffr l1 l2 (c_parts_ldiff l1 l2)) (c_parts_window l1 l2 window)))
+    = (RPlain (Fin 0), full', true) /\
+    Z.of_nat (length full') = (re - rb) * (ce - cb) /\
+    forall i j, rb <= i < re -> cb <= j < ce -> (j = 0 -> i <= cw_ri2 l1 l2 window) -> (i = 0 -> j <= W - 1) ->
+      aget full' ((i - rb) * (ce - cb) + (j - cb)) = mget (wps_matrix usq s1 s2) (Z.to_nat i) (Z.to_nat j).
+Proof.
+  intros W HL Hid Hrb Hre Hcb Hce HLf.
+  destruct (c_wps_kernel_fills_the_matrix l1 l2 window ltac:(lia) ltac:(lia) Hwin (cell usq s1 s2) (adj_penalty usq)
+              (psi_1b usq) (psi_2b usq) cell_outside_band (Z.of_nat d) (concat s1) (concat s2) (adj_max_step usq)
+              cell_on_band ltac:(lia) ltac:(lia) ce0 shiftf ced1 ced2 wps0 psi_neg idist zp1e zp2e HL Hid)
+    as (wps' & E & HLen & Hrows).
+  destruct (c_expand_slice_spec l1 l2 window ltac:(lia) ltac:(lia) Hwin (cell usq s1 s2) (adj_penalty usq) (psi_1b usq) (psi_2b usq)
+              cell_outside_band rb re cb ce Hrb Hre Hcb Hce wps' HLen Hrows full0 HLf) as (full' & EE & (HLF & HI)).
+  exists wps', full'. split; [exact E|]. split; [exact EE|]. split; [exact HLF|].
+  intros i j Hi Hj Hb0 Hr0. destruct (HI i j Hi Hj) as [Hv _]. unfold P in Hv. rewrite Hv by (try assumption; lia).
+  rewrite wps_matrix_Mfun; [reflexivity|unfold sr; lia|unfold sc; lia].
 Qed.
 End Final.
 
